@@ -12,8 +12,12 @@ ASSUMPTIONS = [
     "roll_completes_partial is about the class's key-state machine (Ca/KeySync.lean) with an answering parent; its tie to the "
     "manager-level sync is the lock-step run, not a proof; at the Sys level KeyRollActivate is refused as a whole while any class "
     "has a new key with open requests, and child certificates with request limits can make shrink/activation fail",
-    "no_loss_no_dup_partial assumes objects_mirror (C01) and no stale suspended entry before the activation command; "
-    "no_loss_no_dup_quiet_partial proves the second for every history without an unsuspension of a suspended child",
+    "no_loss_no_dup_partial assumes objects_mirror (C01: before the activation command the current set publishes what the class "
+    "holds); that no key is both issued and suspended is proved for every history (fix bb96d233)",
+    "listener_accepts_partial excludes a revocation request that names a class which is still pending (no object sets yet): "
+    "there the listener answers with an error, nothing is stored (revoke_for_pending_class_refused); no panic",
+    "pinned_* theorems are counter-models of the tree before fixes bb96d233 / 43d7eca0 (the old add_issued_certificate and "
+    "process_child_revoke_key kept as separate definitions); they say nothing about the current tree",
     "HashMap iteration order is arbitrary: the model visits classes in insertion order, the driver compares per class",
 ]
 
@@ -31,22 +35,25 @@ MANIFEST = {
             "certificates (KeyState with every apply_* of rc.rs as a partial function, process for all commands that touch that state) "
             "and of the published-object side (ResourceClassKeyState, pre-save listener), all for every state reachable by any command "
             "history with any inputs: the model's apply is defined exactly on the panic-free domain GENERATED from "
-            "certauth.rs/rc.rs/keys.rs on every run (apply_domain_matches_model); process only emits events that apply without panic "
-            "and that the listener accepts (process_emits_applicable_partial; the exception - revocation under a class-name mapping - "
-            "is proved to panic and replays, F-C04-1); aggregate and object sets mirror each other, keys of a class are distinct "
+            "certauth.rs/rc.rs/keys.rs on every run (apply_domain_matches_model); process only emits events that apply without panic, "
+            "for every command including revocation requests under any class-name mapping, so no command of any history panics "
+            "(process_emits_applicable, process_emits_in_domain, never_panics; since fix 43d7eca0 - the pinned tree's panic and its "
+            "ignored revocation are kept as pinned_revoke_under_mapping_panics / pinned_revoke_mapped_ignored) and the listener accepts "
+            "them (listener_accepts_partial); aggregate and object sets mirror each other, keys of a class are distinct "
             "(mirror, keys_distinct); only the current set carries products (single_signer); the activation command moves every "
             "product and child certificate to the new key's set and empties the old one (activation_moves_everything, "
-            "no_loss_no_dup_partial, no_loss_no_dup_quiet_partial, witness of the loss after unsuspension F-C02-1); the finish command leaves one set "
+            "no_loss_no_dup_partial; pinned_activation_loses_stale_child is the loss on the pinned tree); the finish command leaves one set "
             "(finish_removes_old_set); a second initiate emits nothing (second_roll_noop); two rounds of (sync, activate, sync) complete "
             "every roll of the class key-state machine (roll_completes_partial). Tied to the code by lock-step execution of the model "
             "against an in-process krill (every stored command: events predicted by process, observed events applied by the partial "
             "apply and the listener model, state compared with CertAuth and CaObjects) on hand-written scenarios and seeded histories, "
             "and by the theorem predicates evaluated on the implementation's own state",
-    "note": "Kernel-checked theorems are about the model. Partial: process_emits_applicable excludes revocation requests whose "
-            "translated class is missing or pending (F-C04-1 replays: panic in the request handler); no_loss_no_dup needs objects_mirror "
-            "and no stale suspended entry (F-C02-1); roll_completes is proved on the class key-state machine, not lifted to the "
-            "multi-class Sys level. Also recorded: F-C03-1 (revocation under a mapped class name ignored) and F-C04-2 (activation "
-            "re-issues ROAs outside a shrunken new certificate). Real cryptography, manifests/CRLs and the wall clock are outside the model.",
+    "note": "Kernel-checked theorems are about the model. Partial: listener_accepts excludes revocation for a class still pending "
+            "(error, not stored); no_loss_no_dup needs objects_mirror (C01); roll_completes is proved on the class key-state machine, "
+            "not lifted to the multi-class Sys level. F-C02-1, F-C03-1, F-C04-1 are fixed (bb96d233, 43d7eca0): their scenarios stay in "
+            "the corpus and fail the check if the behaviour returns. Open: F-C04-2 (activation re-issues ROAs outside a shrunken new "
+            "certificate) and F-C04-3 (a mapping to a class the parent does not have may shadow the class a child is certified under: "
+            "its revocation is then ignored for ever). Real cryptography, manifests/CRLs and the wall clock are outside the model.",
     "technique": "Lean 4 proof (invariants by induction over command histories, finite abstraction + decide, concrete counter-examples) "
                  "+ source translator (panic domains) + correspondence check",
 }
